@@ -22,6 +22,7 @@ import (
 	"lunar/toolkit-core/logging"
 	"lunar/toolkit-core/network"
 	"lunar/toolkit-core/otel"
+	"lunar/toolkit-core/verifhook"
 	"net/http"
 	"sync"
 	"time"
@@ -240,8 +241,16 @@ func (rd *HandlingDataManager) initializeStreams() (err error) {
 	if err != nil {
 		return fmt.Errorf("failed to create stream: %w", err)
 	}
+	if verifhook.Enabled {
+		if err = verifhook.Fault("reload.init"); err != nil {
+			return err
+		}
+	}
 	rd.stream = stream
 	rd.stream.WithHub(rd.lunarHub)
+	if verifhook.Enabled {
+		verifhook.Yield("reload.published")
+	}
 	if err = rd.stream.Initialize(); err != nil {
 		return fmt.Errorf("failed to initialize streams: %w", err)
 	}
@@ -271,6 +280,11 @@ func (rd *HandlingDataManager) initializeStreams() (err error) {
 }
 
 func (rd *HandlingDataManager) processFlowsValidation() error {
+	if verifhook.Enabled {
+		if err := verifhook.Fault("reload.validate"); err != nil {
+			return err
+		}
+	}
 	err := rd.initializeStreamsForDryRun()
 	if err == nil {
 		return nil
